@@ -87,8 +87,7 @@ class CachingLoaderMixin(ABC, _CachingLoaderProtocol):
             self.cache[cache_key] = template
             return template
 
-        if globals:
-            cached_template.global_data = globals
+        cached_template.global_data = globals or {}
         return cached_template
 
     async def _check_cache_async(
@@ -110,8 +109,7 @@ class CachingLoaderMixin(ABC, _CachingLoaderProtocol):
             self.cache[cache_key] = template
             return template
 
-        if globals:
-            cached_template.global_data = globals
+        cached_template.global_data = globals or {}
         return cached_template
 
     def load(
